@@ -197,7 +197,7 @@ theorem inv_reap {stale : Nat → IType → Prop} {s s' : BeState} (ids : List N
     refine this.congr_ents ?_
     intro x
     simp only [List.mem_filter, Bool.not_eq_eq_eq_not, Bool.not_true, List.contains_eq_mem, List.mem_map,
-      decide_eq_false_iff_not, not_exists, not_and, Bool.and_eq_true, decide_eq_true_eq]
+      decide_eq_false_iff_not, not_exists, not_and, decide_eq_true_eq]
     constructor
     · rintro ⟨hx, hn⟩
       refine ⟨hx, fun hc => ?_⟩
@@ -314,6 +314,118 @@ theorem inv_upgradeReindex {stale : Nat → IType → Prop} {s s' : BeState} (v 
     subst hrun
     exact hinv
 
+/-- what the layers above guarantee about one incoming replication entry: the entry list after the update is
+well-formed — and, when the uuid is new, so is the list with the attribute-less stub `incremental_prepare` indexes first -/
+def IncOK (s : BeState) (u : Nat) (av : Entry) : Prop :=
+  ∀ s1 pre, incPrepare u s = some (s1, pre) →
+    (pre ∈ s.ents → WFn (putEnt s.ents ⟨pre.id, u, av⟩)) ∧
+    (pre ∉ s.ents → WFn (s.ents ++ [pre]) ∧ WFn (s.ents ++ [⟨pre.id, u, av⟩]))
+
+theorem change_swap_last {ents : List SEnt} {x y : SEnt} (hid : y.id = x.id) (hfresh : ∀ e ∈ ents, e.id ≠ x.id) :
+    Change (ents ++ [x]) (ents ++ [y]) x.id (some x) (some y) := by
+  refine ⟨?_, ?_, ?_⟩
+  · intro e
+    simp only [List.mem_append, List.mem_singleton, Option.some.injEq]
+    constructor
+    · rintro ⟨h | h, he⟩
+      · exact absurd he (hfresh e h)
+      · exact h.symm
+    · rintro rfl; exact ⟨Or.inr rfl, rfl⟩
+  · intro e
+    simp only [List.mem_append, List.mem_singleton, Option.some.injEq]
+    constructor
+    · rintro ⟨h | h, he⟩
+      · exact absurd he (hfresh e h)
+      · exact h.symm
+    · rintro rfl; exact ⟨Or.inr rfl, hid⟩
+  · intro e he
+    simp only [List.mem_append, List.mem_singleton]
+    constructor
+    · rintro (h | rfl)
+      · exact Or.inl h
+      · exact absurd rfl he
+    · rintro (h | rfl)
+      · exact Or.inl h
+      · exact absurd hid he
+
+/-- `incremental_prepare` + the update part of `incremental_apply` for one incoming entry: an existing entry found
+through the uuid index is modified; for a new uuid a stub is indexed, then replaced by the entry -/
+theorem inv_incUpdate {stale : Nat → IType → Prop} {s s' : BeState} (u : Nat) (av : Entry)
+    (hinv : Inv stale s) (hw : WFn s.ents) (hok : IncOK s u av)
+    (hrun : incUpdate u av s = some s') : Inv stale s' ∧ WFn s'.ents := by
+  unfold incUpdate at hrun
+  cases hp : incPrepare u s with
+  | none => rw [hp] at hrun; exact absurd hrun (by simp)
+  | some r =>
+    obtain ⟨s1, pre⟩ := r
+    rw [hp] at hrun
+    simp only at hrun
+    obtain ⟨hin, hout⟩ := hok s1 pre hp
+    unfold incPrepare at hp
+    split at hp
+    · -- a new uuid: stub
+      rename_i hget
+      dsimp only at hp
+      cases h1 : entryIndex s.idxmeta none (some ⟨s.maxid + 1, u, fun _ => []⟩) s.tbl with
+      | none => rw [h1] at hp; exact absurd hp (by simp)
+      | some t1 =>
+        rw [h1] at hp
+        simp only [Option.some.injEq, Prod.mk.injEq] at hp
+        obtain ⟨rfl, rfl⟩ := hp
+        have hfresh : ∀ e ∈ s.ents, e.id ≠ s.maxid + 1 := by
+          intro e he h; have := hinv.idsLe e he; omega
+        have hnot : (⟨s.maxid + 1, u, fun _ => []⟩ : SEnt) ∉ s.ents := fun h => hfresh _ h rfl
+        obtain ⟨hw1, hw2⟩ := hout hnot
+        have hids1 : ((s.ents ++ [(⟨s.maxid + 1, u, fun _ => []⟩ : SEnt)]).map (·.id)).Nodup := by
+          rw [List.map_append]
+          refine List.nodup_append.2 ⟨hinv.idsNodup, by simp, ?_⟩
+          intro x hx y hy hxy
+          obtain ⟨e1, he1, rfl⟩ := List.mem_map.1 hx
+          simp only [List.map_cons, List.map_nil, List.mem_singleton] at hy
+          exact hfresh e1 he1 (hxy.trans hy)
+        have hids2 : ((s.ents ++ [(⟨s.maxid + 1, u, av⟩ : SEnt)]).map (·.id)).Nodup := by
+          simpa [List.map_append] using hids1
+        have ht1 : TInv stale s.idxmeta (s.ents ++ [⟨s.maxid + 1, u, fun _ => []⟩]) t1 :=
+          entry_index_inv (change_add (e := ⟨s.maxid + 1, u, fun _ => []⟩) hfresh) hinv.tables hinv.idsNodup hids1 hw hw1 h1
+        -- the modify on the state that does not store the stub
+        unfold modify at hrun
+        dsimp only at hrun
+        simp only [List.isEmpty_cons, Bool.false_eq_true, if_false, indexPairs] at hrun
+        cases h2 : entryIndex s.idxmeta (some ⟨s.maxid + 1, u, fun _ => []⟩) (some ⟨s.maxid + 1, u, av⟩) t1 with
+        | none => rw [h2] at hrun; exact absurd hrun (by simp)
+        | some t2 =>
+          rw [h2] at hrun
+          simp only [List.foldl_cons, List.foldl_nil, Option.some.injEq] at hrun
+          subst hrun
+          have ht2 : TInv stale s.idxmeta (s.ents ++ [⟨s.maxid + 1, u, av⟩]) t2 :=
+            entry_index_inv (change_swap_last (x := ⟨s.maxid + 1, u, fun _ => []⟩) (y := ⟨s.maxid + 1, u, av⟩) rfl hfresh)
+              ht1 hids1 hids2 hw1 hw2 h2
+          have hput : putEnt s.ents ⟨s.maxid + 1, u, av⟩ = s.ents ++ [⟨s.maxid + 1, u, av⟩] := by
+            have : s.ents.any (fun x => decide (x.id = s.maxid + 1)) = false := by
+              simp only [List.any_eq_false, decide_eq_true_eq]
+              exact fun e he => hfresh e he
+            simp [putEnt, this]
+          simp only [hput]
+          refine ⟨⟨?_, hids2, ht2⟩, hw2⟩
+          intro e he
+          rcases List.mem_append.1 he with h | h
+          · have := hinv.idsLe e h; simp only; omega
+          · simp only [List.mem_singleton] at h; subst h; simp
+    · -- the uuid index finds one stored entry
+      rename_i id hget
+      cases hf : s.ents.find? (fun e => decide (e.id = id)) with
+      | none => rw [hf] at hp; exact absurd hp (by simp)
+      | some e =>
+        rw [hf] at hp
+        simp only [Option.some.injEq, Prod.mk.injEq] at hp
+        obtain ⟨rfl, rfl⟩ := hp
+        have he : e ∈ s.ents := List.mem_of_find?_eq_some hf
+        have hb : BatchWF s.ents [(e, ⟨e.id, u, av⟩)] := by
+          unfold BatchWF
+          exact ⟨he, rfl, hin he, trivial⟩
+        exact inv_modify _ hinv hw hb hrun
+    · exact absurd hp (by simp)
+
 /-! ### all histories -/
 
 /-- which tables are stale after an operation -/
@@ -327,7 +439,7 @@ def staleStep (stale : Nat → IType → Prop) (s : BeState) : Op → (Nat → I
 def OpOK (s : BeState) : Op → Prop
   | .create es => WFn (s.ents ++ assignIds s.maxid es)
   | .modify ps => BatchWF s.ents ps
-  | .incUpdate _ _ => False
+  | .incUpdate u av => IncOK s u av
   | _ => True
 
 def RunOK : BeState → List Op → Prop
@@ -404,7 +516,11 @@ theorem inv_step {stale : Nat → IType → Prop} {s : BeState} (op : Op) (hinv 
             · simp only [Option.some.injEq] at h2; subst h2; rfl
         · simp only [Option.some.injEq] at h; subst h; rfl
       exact ⟨inv_upgradeReindex v hinv hw h, hents ▸ hw⟩
-  | incUpdate u av => exact hok.elim
+  | incUpdate u av =>
+    simp only [step, staleStep]
+    cases h : incUpdate u av s with
+    | none => exact ⟨hinv, hw⟩
+    | some s' => exact inv_incUpdate u av hinv hw hok h
 
 /-- THE PROPERTY: after any history of committed operations whose entries respect the uniqueness the upper
 layers guarantee, under any sequence of index layouts, every non-stale index table and every name table
